@@ -34,7 +34,20 @@ def unusual_program(r):
     for d in p["defs"]:
         q = r.random()
         if q < 0.12 and len(d["params"]) >= 2:
-            d["params"][r.randrange(1, len(d["params"]))] = d["params"][0]      # repeated parameter name
+            # repeated parameter names in every arrangement: first again later, the last two equal, all equal; with OUT = that parameter
+            # and a body that mentions nothing else, the frame is smaller than the number of arguments
+            n_ = len(d["params"])
+            how = r.randrange(4)
+            if how == 0:
+                d["params"][r.randrange(1, n_)] = d["params"][0]
+            elif how == 1:
+                d["params"][n_ - 1] = d["params"][n_ - 2]
+            elif how == 2:
+                d["params"] = [d["params"][0]] * n_
+            else:
+                d["params"] = [d["params"][0]] * n_
+                d["out"] = d["params"][0]
+                d["body"] = [{"k": "assign", "var": d["params"][0], "val": ("var", d["params"][0])}]
         elif q < 0.3 and d["params"]:
             d["out"] = r.choice(d["params"])                                     # OUT = parameter
         elif q < 0.4:
